@@ -12,6 +12,12 @@ Binding A/C: TLC-exported (samples, rank count, per-rank accumulators, exact mea
       Optimizer.generate_profiles (small real TransmissionModel, fake solution), compute_derived_trace.
 Binding B: events U/G/C logged inside the worker processes (per-process sequence numbers) for exported
       and seeded random runs, validated by TLC (Trace_ParallelStats), + canaries.
+Zero weights: the weight domain of the profile / spectrum statistics includes weights that are exactly zero
+      (numpy float64 and python floats) at every position -- first sample of a rank, every sample of a rank,
+      all but one overall -- for every rank count: exhaustive configs *_zero_*, the 0/0 branch of the update
+      (ZeroGuard) with its unguarded variant refuted, zero-mask export (EX_*_var_zero) replayed through
+      OnlineVariance (explicit partition) and through generate_profiles (the drawn list steered to the
+      exported order), seeded random runs with zero weights validated by TLC.
 """
 import math
 import os
@@ -20,7 +26,7 @@ from fractions import Fraction
 
 import numpy as np
 
-from ..core import Machinery, frac, validate_trace
+from ..core import Machinery, frac, validate_trace, run_tlc
 from .. import fx_mpi
 
 REL = 1e-9
@@ -68,6 +74,15 @@ def _qpair(x):
     return [f.numerator, f.denominator]
 
 
+def _wpair(w):
+    """Logged weight.  Optimizer.sample_parameters hands a zero weight over as 1e-300; nothing that is logged
+    (scale 1/S) can tell a weight below 1e-200 from zero, so it is logged as the zero it stands for."""
+    w = float(w)
+    if 0.0 <= w < 1e-200:
+        return [0, 1]
+    return _qpair(w)
+
+
 def _emit(ev):
     ev['seq'] = _W['seq']
     _W['seq'] += 1
@@ -95,7 +110,7 @@ def _install():
         if pj is not None and _W['log']:
             idx, a, b = pj
             u = (float(np.asarray(value)[idx]) - b) / a
-            _emit(dict(ev='U', i=int(_W['cur_i']), v=_qpair(u), w=_qpair(weight), cnt=int(self.count),
+            _emit(dict(ev='U', i=int(_W['cur_i']), v=_qpair(u), w=_wpair(weight), cnt=int(self.count),
                        wc=_sc(self.wcount), mean=_sc((float(np.asarray(self.mean)[idx]) - b) / a),
                        m2=_sc(float(np.asarray(self.M2)[idx]) / (a * a))))
         return r
@@ -297,7 +312,22 @@ def _run_prof(rank, size, case):
     us = [float(Fraction(*q)) for q in case['v']]
     ws = [float(Fraction(*q)) for q in case['w']]
     opt.S = np.array([_params(u, i, names, modes) for i, u in enumerate(us)], dtype=float).reshape(len(us), len(names))
-    opt.W = np.array(ws, dtype=float)
+    opt.W = np.array(ws, dtype=float)              # numpy float64 weights, exact zeros included, as a sampler returns
+    if case.get('steer') and len(us) > 0:
+        # Make the list rank 0 draws equal the exported sequence (position k of the list = sample k of the
+        # vector): learn the permutation the public sample_parameters() yields from this random state on
+        # index-tagged rows, and store sample k in the row that is drawn k-th.  Steering only: expected values
+        # do not depend on the order, and the judge classifies the run by the order that was really processed.
+        tag = names.index('planet_distance')
+        random.seed(case["rseed"])
+        drawn = [int(round(float(p[tag]))) - 1 for p, _ in opt.sample_parameters(0)]
+        if sorted(drawn) == list(range(len(us))):
+            rows, wts = [None] * len(us), [0.0] * len(us)
+            for k, idx in enumerate(drawn):
+                rows[idx] = _params(us[k], k, names, modes)
+                wts[idx] = ws[k]
+            opt.S = np.array(rows, dtype=float).reshape(len(us), len(names))
+            opt.W = np.array(wts, dtype=float)
     random.seed(case["rseed"] + 7919 * rank)     # every MPI process has its own random state
     out = dict(lin=_W['lin'])
     if case.get('profiles', True):
@@ -427,6 +457,30 @@ def shape_class(counts):
     return 'all-ranks-two-or-more'
 
 
+def zero_class(lists):
+    """lists: per rank, the weights in the order the rank processed them."""
+    ws = [w for lst in lists for w in lst]
+    if not any(w == 0 for w in ws):
+        return ''
+    tags = []
+    if any(lst and lst[0] == 0 for lst in lists):
+        tags.append('first-on-a-rank')
+    if any(lst and all(w == 0 for w in lst) for lst in lists):
+        tags.append('rank-all-zero')
+    if sum(1 for w in ws if w > 0) == 1:
+        tags.append('all-but-one')
+    return 'zero-weight-' + ('+'.join(tags) if tags else 'later-only')
+
+
+def processed_lists(per_rank, ws):
+    """Per rank, the weights of the samples in the order the rank really processed them (U events)."""
+    out = []
+    for o in per_rank:
+        ev = sorted((e for e in o.get('events', []) if e['ev'] == 'U'), key=lambda e: e['seq'])
+        out.append([ws[e['i']] if 0 <= e['i'] < len(ws) else -1 for e in ev])
+    return out
+
+
 def rr_counts(n, size):
     return [len(range(r, n, size)) for r in range(size)]
 
@@ -454,6 +508,11 @@ def judge_ov(ctx, vec, case, res):
     nr, n = vec['nr'], vec['n']
     counts = [len(m) for m in case['mine']]
     cls = 'ov:%s' % shape_class(counts)
+    wsf = [frac(q) for q in case['w']]
+    zc = zero_class([[wsf[i] for i in m] for m in case['mine']])
+    if zc:
+        cls += ':%s:%s' % (zc, 'numpy-weights' if case.get('npw') else 'python-weights')
+        COVER.add(('ov', nr, zc, bool(case.get('npw'))))
     info = dict(case, vector=dict(mean=vec['mean'], var=vec['var']))
     if res[0] != 'ok':
         ctx.verdict('no_exception', False, cls=cls, detail=res[1][-400:], vector=info)
@@ -467,11 +526,12 @@ def judge_ov(ctx, vec, case, res):
             a = out['acc']
             ok = a['count'] == ea['count'] and near(a['wcount'], frac(ea['wcount']))
             det = 'rank %d count/wcount %r/%r expected %r/%r' % (r, a['count'], a['wcount'], ea['count'], float(frac(ea['wcount'])))
+            weighed = frac(ea['wcount']) != 0       # only zero weights so far: the mean is a placeholder, M2 is 0
             if ok and ea['count'] > 0:
                 for ch, (ca, cb) in enumerate(zip(CHAN_A, CHAN_B)):
                     em = ca * float(frac(ea['mean'])) + cb
                     e2 = ca * ca * float(frac(ea['M2']))
-                    if not (near(a['mean'][ch], em, 1.0) and near(a['M2'][ch], e2, 1.0)):
+                    if not ((near(a['mean'][ch], em, 1.0) or not weighed) and near(a['M2'][ch], e2, 1.0)):
                         ok = False
                         det = 'rank %d channel %d mean/M2 %r/%r expected %r/%r' % (r, ch, a['mean'][ch], a['M2'][ch], em, e2)
             elif ok and a['mean'] is not None:
@@ -505,6 +565,11 @@ def judge_prof(ctx, vec, case, res, ref):
     ws = [frac(q) for q in vec['w']]
     ties = len(set(ws)) < len(ws)
     cls = 'profiles:%s' % shape_class(counts)
+    if case.get('profiles', True) and any(w == 0 for w in ws):
+        # classified by the order the ranks really processed the samples in (logged update events)
+        zc = zero_class(processed_lists(res[1], ws)) if res[0] == 'ok' else 'zero-weight'
+        cls += ':%s:numpy-weights' % zc
+        COVER.add(('profiles', nr, zc, True))
     dcls = 'derived:%s:%s' % ('tied-weights' if ties else 'distinct-weights', 'one-rank' if nr == 1 else 'several-ranks')
     info = dict(case, vector=dict(mean=vec.get('mean'), var=vec.get('var')))
     if res[0] != 'ok':
@@ -560,7 +625,10 @@ def random_case(rng, tid):
     nr = rng.randint(1, MAX_SIZE)
     n = rng.choice([0, 1, 2, 2, 3, 3, 4, 5, 6, 7, 8, 10])
     v = [[rng.randint(0, 5), 1] for _ in range(n)]
-    w = [list(_qp(Fraction(rng.randint(1, 4), 4))) for _ in range(n)]     # keeps TLC's 32-bit rationals small
+    w = [Fraction(rng.randint(0, 4), 4) for _ in range(n)]     # k/4 keeps TLC's 32-bit rationals small; 0 = an underflowed weight
+    if n >= 1 and not any(w):                                  # never all of them: the statistics would be 0/0
+        w[rng.randrange(n)] = Fraction(rng.randint(1, 4), 4)
+    w = [list(_qp(x)) for x in w]
     c = dict(kind='ov', tid=tid, v=v, w=w, nr=nr, log=True, npw=bool(rng.getrandbits(1)))
     mode = rng.random()
     if mode < 0.5:
@@ -586,8 +654,9 @@ def merge_events(per_rank):
 
 def validate_events(ctx, runs, label):
     """runs: list of (case, per-rank results).  TLC validates every run; returns accepted tids."""
-    events, by_tid = [], {}
+    events, by_tid, pr_by_tid = [], {}, {}
     for case, per_rank in runs:
+        pr_by_tid[case['tid']] = per_rank
         ev = merge_events(per_rank)
         if not ev:
             raise Machinery('no event recorded for run %r' % case['tid'])
@@ -610,6 +679,11 @@ def validate_events(ctx, runs, label):
             raise Machinery('the communicator double delivered an unserialised value (run %r)' % tid)
         counts = [len(m) for m in case['mine']] if 'mine' in case else rr_counts(len(case['v']), case['nr'])
         cls = '%s:%s' % ('ov' if case['kind'] == 'ov' else 'profiles', shape_class(counts))
+        wsf = [frac(x) for x in case['w']]
+        if any(x == 0 for x in wsf):
+            per_rank = pr_by_tid.get(tid, [])
+            cls += ':%s:%s' % (zero_class(processed_lists(per_rank, wsf)),
+                               'numpy-weights' if (case['kind'] != 'ov' or case.get('npw')) else 'python-weights')
         ctx.verdict('trace_' + (b['why'] if b else 'accepted'), b is None, cls=cls,
                     detail='TLC rejected event %s of rank %s (line %s): %s; n=%d nr=%d per-rank counts %s' %
                            (b['ev'], b['rank'], b['l'], b['why'], len(case['v']), case['nr'], counts) if b else '',
@@ -655,6 +729,9 @@ def canary(ctx, by_tid, good):
             raise Machinery('canary %d (%s) was not rejected as expected: %r' % (tid, expect, why.get(tid)))
 
 
+COVER = set()          # (path, rank count, zero-weight class, numpy weights?) exercised by this run
+
+
 def dedup(vecs):
     seen, out = set(), []
     for v in vecs:
@@ -665,14 +742,32 @@ def dedup(vecs):
     return out
 
 
+def tlc_parallel(jobs, par, big_workers):
+    """Run the TLC jobs concurrently; -> TLCResult or the exception, in the order of `jobs`."""
+    from concurrent.futures import ThreadPoolExecutor
+
+    def one(j):
+        try:
+            return run_tlc('MC_ParallelStats', j['cfg'], workers=1 if j['kind'] == 'export' else big_workers,
+                           coverage=bool(j.get('need')), allow_violation=(j['kind'] == 'refute'),
+                           heap='3g' if big_workers <= 4 else '6g')
+        except Exception as e:       # noqa  (reported in order by the caller)
+            return e
+    with ThreadPoolExecutor(max_workers=par) as ex:
+        return list(ex.map(one, jobs))
+
+
 def run(ctx):
+    COVER.clear()
     q = ctx.tier == 'quick'
     rng = random.Random(ctx.seed * 104729 + 18)
     ctx.bounds = dict(
         tier=ctx.tier,
         exhaustive='ranks 1..4, up to %d samples, values/weights from small sets: every interleaving of Update/Gather/Combine '
-                   '(round-robin split) and every partition (combine step alone); derived traces with zero and tied weights' % (4 if q else 5),
-        simulated_runs='rank counts 1..6 (one process per rank, all exchanges pickled), 0..12 samples, weights k/4')
+                   '(round-robin split) and every partition (combine step alone), weights that are exactly zero at every position '
+                   'included; derived traces with zero and tied weights' % (4 if q else 5),
+        simulated_runs='rank counts 1..6 (one process per rank, all exchanges pickled), 0..12 samples, weights k/4, k = 0 included '
+                       '(numpy float64 and python zeros; first sample of a rank, every sample of a rank, all but one)')
     ctx.assumptions = [
         'the mpi4py double reproduces the semantics of the pickle-based collectives (allgather, bcast, allreduce folding with + in rank order)',
         'TLC + CommunityModules Json/IOUtils',
@@ -680,43 +775,81 @@ def run(ctx):
         'quantile summaries of derived parameters are compared with the one-rank run of the same code; traces, means, variances with the specification',
     ]
     t = ctx.tier
-    # ---------------------------------------------------------------- design level
+    # ---------------------------------------------------------------- design level + exports
     # (per-action coverage slows TLC down a lot: the big configs prove non-vacuity by the depth of their
     #  state graph -- every sample updated, every rank gathered and combined / reordered -- and the two small
-    #  configs, which take the same actions, by TLC's action coverage)
+    #  configs, which take the same actions, by TLC's action coverage.)
+    # The TLC runs are independent of each other: they are started together (threads around the TLC
+    # subprocesses) and accounted for in a fixed order afterwards; no simulated rank is forked meanwhile.
+    jobs = []
+
     def deep(label, cfg, depth):
-        res = ctx.check_spec(label, 'MC_ParallelStats', cfg)
-        if res.depth < depth:
-            raise Machinery('vacuous: state graph of %s has depth %d < %d' % (cfg, res.depth, depth))
-        return res
+        jobs.append(dict(kind='check', label=label, cfg=cfg, depth=depth))
+
+    def refute(label, cfg, inv):
+        jobs.append(dict(kind='refute', label=label, cfg=cfg, inv=inv))
     if q:
         deep('var-interleavings', 'MC_ParallelStats_var_quick.cfg', 1 + 4 + 2 * 3)
+        deep('var-zero-weights-interleavings', 'MC_ParallelStats_zero_quick.cfg', 1 + 4 + 2 * 3)
         deep('var-every-partition', 'MC_ParallelStats_any_quick.cfg', 1 + 2 * 3)
         deep('derived-trace', 'MC_ParallelStats_trace_quick.cfg', 1 + 4 + 1 + 3)
     else:
         deep('var-interleavings', 'MC_ParallelStats_var_thorough.cfg', 1 + 4 + 2 * 4)
+        deep('var-zero-weights-interleavings', 'MC_ParallelStats_zero_thorough.cfg', 1 + 4 + 2 * 4)
         deep('var-interleavings-5', 'MC_ParallelStats_var_thorough5.cfg', 1 + 5 + 2 * 4)
         deep('var-every-partition', 'MC_ParallelStats_any_thorough.cfg', 1 + 2 * 4)
+        deep('var-zero-weights-every-partition', 'MC_ParallelStats_zeroany_thorough.cfg', 1 + 2 * 4)
         deep('derived-trace', 'MC_ParallelStats_trace_thorough.cfg', 1 + 4 + 1 + 4)
         deep('derived-trace-5', 'MC_ParallelStats_trace_thorough5.cfg', 1 + 5 + 1 + 4)
-    ctx.check_spec('in-process-identity-test', 'MC_ParallelStats', 'MC_ParallelStats_inproc.cfg',
-                   need_actions=('UpdateStep', 'GatherStep', 'CombineStep'))
-    ctx.check_spec('as-built-reorder-keeps-summaries', 'MC_ParallelStats', 'MC_ParallelStats_asbuilt_summaries_%s.cfg' % t,
-                   need_actions=('DeriveStep', 'AllReduceConcat', 'ReorderStep'))
-    ctx.exhaustive = True
-    ctx.expect_refuted('refute-identity-nan-test', 'MC_ParallelStats', 'MC_ParallelStats_refute_nan.cfg', 'VarianceIsTwoPass')
-    ctx.expect_refuted('refute-reorder-by-weight', 'MC_ParallelStats', 'MC_ParallelStats_refute_tie.cfg', 'TraceInSampleOrder')
-    ctx.expect_refuted('refute-wrong-stride', 'MC_ParallelStats', 'MC_ParallelStats_refute_stride.cfg', 'EachSampleOnce')
+    ex_var = ['EX_ParallelStats_var_all.cfg', 'EX_ParallelStats_var_gen.cfg']
+    ex_zero = ['EX_ParallelStats_var_zero.cfg' if q else 'EX_ParallelStats_var_zero_thorough.cfg']
+    ex_trace = ['EX_ParallelStats_trace_all.cfg', 'EX_ParallelStats_trace_gen.cfg']
+    for cfg in ex_var + ex_zero + ex_trace:
+        jobs.append(dict(kind='export', label='export-' + cfg, cfg=cfg))
+    jobs.append(dict(kind='check', label='in-process-identity-test', cfg='MC_ParallelStats_inproc.cfg', depth=0,
+                     need=('UpdateStep', 'GatherStep', 'CombineStep')))
+    jobs.append(dict(kind='check', label='as-built-reorder-keeps-summaries', cfg='MC_ParallelStats_asbuilt_summaries_%s.cfg' % t,
+                     depth=0, need=('DeriveStep', 'AllReduceConcat', 'ReorderStep')))
+    refute('refute-identity-nan-test', 'MC_ParallelStats_refute_nan.cfg', 'VarianceIsTwoPass')
+    refute('refute-reorder-by-weight', 'MC_ParallelStats_refute_tie.cfg', 'TraceInSampleOrder')
+    refute('refute-wrong-stride', 'MC_ParallelStats_refute_stride.cfg', 'EachSampleOnce')
+    # the unguarded 0/0 of the update (zero weight met while nothing has been weighed): the result depends on
+    # which sample happens to be the first one of a rank
+    refute('refute-unguarded-zero-weight-sched', 'MC_ParallelStats_refute_zero_sched.cfg', 'ScheduleIndependent')
     if not q:
-        ctx.expect_refuted('refute-identity-nan-test-sched', 'MC_ParallelStats', 'MC_ParallelStats_refute_sched.cfg', 'ScheduleIndependent')
-    # ---------------------------------------------------------------- exports
-    vv, tv = [], []
-    for cfg in ('EX_ParallelStats_var_all.cfg', 'EX_ParallelStats_var_gen.cfg'):
-        vv += dedup(ctx.check_spec('export-' + cfg, 'MC_ParallelStats', cfg, workers=1).tagged('VEC'))
-    for cfg in ('EX_ParallelStats_trace_all.cfg', 'EX_ParallelStats_trace_gen.cfg'):
-        tv += dedup(ctx.check_spec('export-' + cfg, 'MC_ParallelStats', cfg, workers=1).tagged('VEC'))
-    if len(vv) < 500 or len(tv) < 500:
-        raise Machinery('too few exported vectors (%d, %d)' % (len(vv), len(tv)))
+        refute('refute-unguarded-zero-weight', 'MC_ParallelStats_refute_zero.cfg', 'VarianceIsTwoPass')
+        refute('refute-identity-nan-test-sched', 'MC_ParallelStats_refute_sched.cfg', 'ScheduleIndependent')
+    results = tlc_parallel(jobs, par=5 if q else 3, big_workers=4 if q else 8)
+    exported = {}
+    for j, res in zip(jobs, results):
+        if isinstance(res, Exception):
+            raise res
+        if j['kind'] == 'refute':
+            ctx.add_tlc(j['label'], res, counts=False)
+            if res.violated != j['inv']:
+                raise Machinery('expected TLC to refute %s in MC_ParallelStats/%s, got %r' % (j['inv'], j['cfg'], res.violated))
+            continue
+        ctx.add_tlc(j['label'], res)
+        if res.violated:
+            raise Machinery('spec MC_ParallelStats/%s violates %s\n%s' % (j['cfg'], res.violated, res.error_trace))
+        if res.distinct == 0:
+            raise Machinery('TLC reported 0 states for MC_ParallelStats/%s' % j['cfg'])
+        for a in j.get('need', ()):
+            if res.action_cov.get(a, (0, 0))[1] == 0:
+                raise Machinery('vacuous: action %s never taken in %s' % (a, j['cfg']))
+        if j['kind'] == 'check' and res.depth < j['depth']:
+            raise Machinery('vacuous: state graph of %s has depth %d < %d' % (j['cfg'], res.depth, j['depth']))
+        if j['kind'] == 'export':
+            exported[j['cfg']] = dedup(res.tagged('VEC'))
+    ctx.exhaustive = True
+    vv = [v for cfg in ex_var for v in exported[cfg]]
+    zv = [v for cfg in ex_zero for v in exported[cfg]]
+    tv = [v for cfg in ex_trace for v in exported[cfg]]
+    if len(vv) < 500 or len(tv) < 500 or len(zv) < 150:
+        raise Machinery('too few exported vectors (%d, %d, %d)' % (len(vv), len(tv), len(zv)))
+    if any(not v['defined'] for v in vv + zv) or not all(any(frac(x) == 0 for x in v['w']) for v in zv):
+        raise Machinery('exported vectors: a sample set without positive weight, or a zero mask without zero weight')
+    vv = vv + zv
     runner = Runner()
     try:
         execute(ctx, runner, rng, vv, tv, q)
@@ -724,6 +857,19 @@ def run(ctx):
         runner.close()
         fx_mpi.close_all()
     ctx.note('simulated collectives completed by the hub: %d' % runner.collectives)
+    # non-vacuity of the zero-weight domain (only judged on a run without violations: a defect may derail the steering)
+    if not ctx.has_violations():
+        for nr in range(1, MAX_SIZE + 1):
+            for path, npws in (('ov', (True, False)), ('profiles', (True,))):
+                need = ['first-on-a-rank'] + (['rank-all-zero'] if nr >= 2 else []) + (['all-but-one'] if path == 'ov' else [])
+                for npw in npws:
+                    got = set(t for (p_, k, zc, w_) in COVER if p_ == path and k == nr and w_ == npw
+                              for t in zc.replace('zero-weight-', '').split('+'))
+                    miss = [x for x in need if x not in got]
+                    if miss:
+                        raise Machinery('zero-weight classes %s never exercised on %d ranks (%s, %s weights)' %
+                                        (miss, nr, path, 'numpy' if npw else 'python'))
+    ctx.note('zero-weight classes exercised (path, ranks, class, numpy weights): %d' % len(COVER))
 
 
 def execute(ctx, runner, rng, vv, tv, q):
@@ -734,6 +880,8 @@ def execute(ctx, runner, rng, vv, tv, q):
         return tid[0]
     traced = []                      # (case, per-rank results) to be validated by TLC
     B = 40
+    ZSHARE = 0.3 if q else 1.0       # share of the zero-mask runs whose event logs go to TLC
+    ZPROF = 0.5 if q else 1.0        # share of the zero-mask vectors (3..6 ranks) run through generate_profiles
     # -------- OnlineVariance path: every exported vector with its own partition, a share with random partitions
     by_nr = {}
     for v in vv:
@@ -752,16 +900,37 @@ def execute(ctx, runner, rng, vv, tv, q):
                 if res[0] == 'failed':
                     raise Machinery('simulated run failed: ' + res[1][-600:])
                 judge_ov(ctx, v, c, res)
-                if res[0] == 'ok' and (v['n'] >= 4 or rng.random() < n_trace_budget / float(len(vv) * 1.3)):
+                zero = any(x[0] == 0 for x in c['w'])
+                if res[0] == 'ok' and ((v['n'] >= 4 and (not zero or rng.random() < ZSHARE)) or
+                                       rng.random() < n_trace_budget / float(len(vv) * 1.3)):
                     traced.append((c, res[1]))
     ctx.add_sample(dict(binding='A/C', path='OnlineVariance', vector={k: vv[len(vv) // 2][k] for k in ('nr', 'n', 'v', 'w', 'mean', 'var')}))
     # -------- generate_profiles: generic vectors + a share of the small ones
-    prof = [v for v in vv if v['n'] >= 4] + [v for v in vv if v['n'] < 4 and rng.random() < (0.12 if q else 0.6)]
+    haszero = lambda v: any(frac(x) == 0 for x in v['w'])
+    # Zero-mask vectors: generate_profiles hands a zero weight over as 1e-300, so a zero-weight sample leaves a
+    # rounding residue (1e-16 relative, of either sign) in the streaming M2.  That is immaterial unless the exact
+    # variance is 0 (all samples of positive weight equal, e.g. all weights but one are zero), where the square
+    # root turns it into 1e-10 or NaN -- on one rank already.  Such ill-conditioned sets are judged on the
+    # OnlineVariance path only (exact zeros); see the report.
+    zprof, seen = [], {}
+    for v in vv:
+        if v['n'] < 3 or not haszero(v) or xnum(v['var']) == 0:
+            continue
+        wsf = [frac(x) for x in v['w']]
+        tags = zero_class([[wsf[i] for i in range(r, v['n'], v['nr'])] for r in range(v['nr'])]).split('+')
+        fresh = [tg for tg in tags if seen.get((v['nr'], tg), 0) < 2]
+        if fresh or rng.random() < ZPROF:
+            zprof.append(v)
+            for tg in tags:
+                seen[(v['nr'], tg)] = seen.get((v['nr'], tg), 0) + 1
+    prof = [v for v in vv if v['n'] >= 4 and not haszero(v)] + zprof + \
+           [v for v in vv if v['n'] < 4 and not haszero(v) and rng.random() < (0.12 if q else 0.6)]
     by_nr = {}
     for v in prof:
         by_nr.setdefault(v['nr'], []).append(v)
     for nr in sorted(by_nr):
-        items = [(v, dict(case_from_vector(v, next_tid(), 'prof', rng), profiles=True, derived=False)) for v in by_nr[nr]]
+        items = [(v, dict(case_from_vector(v, next_tid(), 'prof', rng), profiles=True, derived=False, steer=haszero(v)))
+                 for v in by_nr[nr]]
         for k in range(0, len(items), B):
             chunk = items[k:k + B]
             out = runner.run_batch(nr, [c for _, c in chunk])
